@@ -12,17 +12,17 @@ CHECKS = {
    technique="TLA+ regex semantics (Regex.tla, RuleJson.tla) explored by TLC into per-rule automata; W-method conformance suite from TLC's graph replayed through validate.node",
    design="4/C01"),
  "C02": dict(
-   text="TLC evaluates the decision table of ContentClass.tla (12 content kinds + enumeration, three-valued) for every rule x ~50 abstract content classes (numeric classes split into boundary buckets at +-180, +-90, 0) x hasKids x enum dimension; every combination is concretised by constructive generators (12 strings per combination quick, 400 thorough; boundary values exact) and validated in both modes: ACCEPT/REJECT must match, both modes agree, nothing but rule errors, collecting mode never raises. Two lexical layers enumerate ALL short strings over tiny alphabets with strict / generous grammars (Lexical.tla: int, float and the ranged kinds over {-,+,0,1,8,9,.,e}; LexDate.tla: year-or-date and time over {+,-,0,1,2,9,:,T}).",
+   text="TLC evaluates the decision table of ContentClass.tla (12 content kinds + enumeration, three-valued) for every rule x ~50 abstract content classes (numeric classes split into boundary buckets at +-180, +-90, 0) x hasKids x enum dimension; every combination is concretised by constructive generators (12 strings per combination quick, 400 thorough; boundary values exact) and validated in both modes: ACCEPT/REJECT must match, both modes agree, nothing but rule errors, collecting mode never raises. Two lexical layers enumerate ALL short strings over tiny alphabets with strict / generous grammars (Lexical.tla: int, float and the ranged kinds over {-,+,0,1,8,9,.,e}; LexDate.tla: year-or-date and time over {+,-,0,1,2,9,:,T}). URIs: class URI_FULL (userinfo, port, IP literals, pct-encoding, query, fragment) must be accepted.",
    note="Which strings belong to a class is decided by the generators, not by the spec (DESIGN section 5). Lenient spellings, blank text, NaN/inf for unranged float, lone surrogates are UNSPEC.",
    technique="TLA+ decision table (ContentClass.tla) enumerated by TLC (MC_Content); each table row concretised and replayed through validate.node",
    design="4/C02"),
  "C03": dict(
-   text="MC_Attr: TLC explores AddAttribute/RemoveAttribute on one node for every rule, reaching every assignment over {absent, each listed value, one unlisted value} per declared attribute x {no foreign, one foreign} (complete: ~1.1k states) and states the exact set of violated constraints. Every state is realised on a node with valid content/children (seeded insertion order with add/remove noise); collecting mode must return exactly that multiset of (code, attribute) and raise nothing; fail-fast raises a rule error iff the set is non-empty; is_required_attribute / allowed_attribute_values must equal the table and raise for a foreign name.",
+   text="MC_Attr: TLC explores AddAttribute/RemoveAttribute on one node for every rule, reaching every assignment over {absent, each listed value, one unlisted value} per declared attribute x {no foreign, one foreign} (complete: ~1.1k states) and states the exact set of violated constraints. Every state is realised on a node with valid content/children (seeded insertion order with add/remove noise); collecting mode must return exactly that multiset of (code, attribute) and raise nothing; fail-fast raises a rule error iff the set is non-empty; is_required_attribute / allowed_attribute_values must equal the table and raise for a foreign name. The model's single foreign name is realised with adversarial look-alikes of every declared name (prefixed, padded, case-changed, truncated, doubled, empty).",
    note="Oracle: the declaration in rules.json as generated into RuleTable.tla (not rule.rules_dict). One unlisted value and one foreign name stand for all.",
    technique="TLA+ state machine over attribute assignments (MC_Attr) explored exhaustively by TLC; every state replayed through validate.node",
    design="4/C03"),
  "C04": dict(
-   text="Trace validation: every validate.node call on every node and validate.tree on the root, in both modes, of (b) 1-3 adversarial mutations of the EML fixture and of rule-guided generated trees (16 named operators incl. every content class, hostile Unicode, non-string attribute values), (c) random trees over known/unknown names, (d) chains to depth 100 and (e) a systematic sweep of every known element x ~70 hostile contents x attributes, is recorded under a watchdog and judged by TraceValidate.tla, whose Validate action has only the outcomes 'succeeds' / 'rule error' (OutcomeOK: no other exception, collecting never raises, entry shape, list empty iff fail-fast succeeds). Error codes and exception kinds exercised are counted in the evidence.",
+   text="Trace validation: every validate.node call on every node and validate.tree on the root, in both modes, of (b) 1-3 adversarial mutations of the EML fixture and of rule-guided generated trees (16 named operators incl. every content class, hostile Unicode, non-string attribute values), (c) random trees over known/unknown names, (d) chains to depth 100 and (e) a systematic sweep of every known element x ~70 hostile contents x attributes, is recorded under a watchdog and judged by TraceValidate.tla, whose Validate action has only the outcomes 'succeeds' / 'rule error' (OutcomeOK: no other exception, collecting never raises, entry shape, list empty iff fail-fast succeeds). Error codes and exception kinds exercised are counted in the evidence. The sweep also plants hostile attribute names (colons, empties, controls, format metacharacters, look-alikes of declared names) and typed templates perturbed with characters on which Python's predicates and parsers disagree.",
    note="Inputs are the point here; the judge is small. 130k validations quick, millions thorough. Lone surrogates and nesting beyond 100 are outside the quantifier.",
    technique="trace validation: recorded validation outcomes judged by a TLA+ trace specification (TraceValidate.tla) with TLC",
    design="4/C04"),
@@ -37,17 +37,17 @@ CHECKS = {
    technique="TLA+ codec specification model-checked by TLC (MC_Codec) and replayed; recorded codec events trace-validated by TLC (TraceCodec.tla)",
    design="4/C06"),
  "C07": dict(
-   text="Xml.tla defines the correspondence between a raw XML document (names and xmlns:* attributes as written, as reported by a non-namespace-aware parser) and a tree: InScope folds the declarations down the document (recomputed in TLA+, independently of lxml), qualified attributes are compared by expanded name, text modulo XML-whitespace strip with blank == absent. Seeded trees (1-25 nodes, prefixes bound through the API incl. re-declaration below, specials < > & \" ' ]]> entity spellings, comment/PI look-alikes, non-ASCII in content, tail, attribute, extras values; valid namespace URIs with & and quotes) are exported by both exporters; the output must be accepted by two independent parsers and is judged by TraceXml.tla (Corr mode export / CorrEml); from_xml(to_xml(t)) must be the same tree up to whitespace.",
+   text="Xml.tla defines the correspondence between a raw XML document (names and xmlns:* attributes as written, as reported by a non-namespace-aware parser) and a tree: InScope folds the declarations down the document (recomputed in TLA+, independently of lxml), qualified attributes are compared by expanded name, text modulo XML-whitespace strip with blank == absent. Seeded trees (1-25 nodes, prefixes bound through the API incl. re-declaration below, specials < > & \" ' ]]> entity spellings, comment/PI look-alikes, non-ASCII in content, tail, attribute, extras values; valid namespace URIs with & and quotes) are exported by both exporters; the output must be accepted by two independent parsers and is judged by TraceXml.tla (Corr mode export / CorrEml); from_xml(to_xml(t)) must be the same tree up to whitespace. Trees are exported as built roots, as copies of branches, as branches detached with remove_child and as branches in place.",
    note="Parsers are observation devices (expat for what the text denotes, lxml as second opinion on well-formedness). Default namespaces and invalid URIs as namespace names are outside the quantifier.",
    technique="trace validation: exporter outputs parsed independently and judged by a TLA+ document/tree correspondence (Xml.tla, TraceXml.tla) with TLC",
    design="4/C07"),
  "C08": dict(
-   text="Same correspondence relation in the import direction, with Text!Clean as the whitespace policy (design-checked idempotent and word-preserving by MC_Text on all strings <= 6). Exhaustive: every string <= 4 (thorough 5) over {SP,TAB,LF,NBSP,a,b} as content and as tail of a literal and a non-literal element in raw / clean / collapse mode. Seeded: documents with prefixed declarations incl. re-declaration in subtrees (two prefixes bound to one URI too), xml:-prefixed and other qualified attributes, entities, CDATA, comments strictly between tags, XML declaration and leading comment, all four clean/collapse combinations and several literals tuples. Every import is judged by TraceXml.tla; the tree is exported and imported again and must be the same tree up to the whitespace policy.",
+   text="Same correspondence relation in the import direction, with Text!Clean as the whitespace policy (design-checked idempotent and word-preserving by MC_Text on all strings <= 6). Exhaustive: every string <= 4 (thorough 5) over {SP,TAB,LF,NBSP,a,b} as content and as tail of a literal and a non-literal element in raw / clean / collapse mode. Seeded: documents with prefixed declarations incl. re-declaration in subtrees (two prefixes bound to one URI too), xml:-prefixed and other qualified attributes, entities, CDATA, comments strictly between tags, XML declaration and leading comment, all four clean/collapse combinations and several literals tuples. Every import is judged by TraceXml.tla; the tree is exported and imported again and must be the same tree up to the whitespace policy. Names include hyphens, dots, underscores and digits (elements, attributes, qualified attributes, prefixes).",
    note="UNSPEC: NBSP adjacent to non-blank text, Unicode whitespace beyond SP/TAB/LF/NBSP, text adjacent to comments, default namespaces.",
    technique="trace validation: imports judged by the TLA+ correspondence relation (Xml.tla + Text.tla) with TLC; exhaustive short texts, seeded documents",
    design="4/C08"),
  "C09": dict(
-   text="TLC explores every forest over 4 nodes x 2 names with every edit (append, insert at every index, remove, clear, replace, both shift modes and directions, and the failing variants) and checks the spec's own invariants/action properties; the harness replays every labelled transition, every state's full query table, all paths to depth 3/4 and seeded walks on real Node objects, and TraceForest.tla judges long random histories over 12-20 nodes recorded from the real API. Exhaustive within the bound; beyond it, sampled.",
+   text="TLC explores every forest over 4 nodes x 2 names with every edit (append, insert at every index, remove, clear, replace, both shift modes and directions, and the failing variants) and checks the spec's own invariants/action properties; the harness replays every labelled transition, every state's full query table, all paths to depth 3/4 and seeded walks on real Node objects, and TraceForest.tla judges long random histories over 12-20 nodes recorded from the real API. Exhaustive within the bound; beyond it, sampled. replace_child(x, x) (a node replaced by itself stays attached to one parent) is part of the model.",
    note="Trusted: TLC, the projection pi (public properties only), Python list semantics for building states. Assumes the usage constraint of the statement (one parent at a time, no cycles, in-range insert index). Stored parent links of unlisted nodes are not judged.",
    technique="TLA+ spec (Metapype.tla/Forest.tla) model-checked by TLC; logged transition relation replayed into the code; recorded histories trace-validated by TLC (TraceForest.tla)",
    design="4/C09"),
@@ -57,7 +57,7 @@ CHECKS = {
    technique="TLA+ constant-level clauses over the generated rule table evaluated by TLC (MC_Table); witnesses replayed through validate.tree",
    design="4/C10"),
  "C11": dict(
-   text="Every read-only entry point (31: both validators in both modes, both evaluators, 4 JSON/dict serialisers, both XML exporters, both graph renderers, all search queries, insertion index, allowed-child, structural comparison, str/repr/object, attribute queries) is a stuttering action of the spec. After each call the full projection (every field of every node, order, namespace maps, registry) is logged and TraceForest.tla requires post = pre field by field, and - with a memo state variable - that equal calls give equal results since the last mutating call. Orders: a baseline pass, then every ordered pair (enumerated by TLC, MC_ReadOnly), then seeded sequences of 24 on larger trees; trees: EML fixture, generated valid trees, trees with & < > and pre-escaped entities, trees with namespaces/prefixes/extras/tails.",
+   text="Every read-only entry point (31: both validators in both modes, both evaluators, 4 JSON/dict serialisers, both XML exporters, both graph renderers, all search queries, insertion index, allowed-child, structural comparison, str/repr/object, attribute queries) is a stuttering action of the spec. After each call the full projection (every field of every node, order, namespace maps, registry) is logged and TraceForest.tla requires post = pre field by field, and - with a memo state variable - that equal calls give equal results since the last mutating call. Orders: a baseline pass, then every ordered pair (enumerated by TLC, MC_ReadOnly), then seeded sequences of 24 on larger trees; trees: EML fixture, generated valid trees, trees with & < > and pre-escaped entities, trees with namespaces/prefixes/extras/tails. Tree kinds include invalid trees (adversarial mutations; attributes stripped from half of the nodes).",
    note="Trusted: pi reads public properties only; an exception is treated as the call's result here. Results are compared as interned strings with nodes rendered by abstract id.",
    technique="trace validation: stuttering + memo clauses of TraceForest.tla judged by TLC on recorded full-state traces; op orders enumerated by TLC",
    design="4/C11"),
@@ -72,22 +72,22 @@ CHECKS = {
    technique="TLA+ action properties checked by TLC; path replay + product exploration of TLC's graph against the code; trace validation of random histories",
    design="4/C13"),
  "C14": dict(
-   text="RegistryStep (the registry changes only by create/copy/import adding exactly the new ids and delete/replace-with-delete removing exactly the named subtree) is an action property checked by TLC over every history of create, import (xml/json), copy, attach, detach, replace(+-delete), delete(+-children) with <= 4 (thorough 5) ids; every transition is replayed after the genuine history of its source state, comparing registry membership by object identity, returned ids and id uniqueness; after every transition an id-only observer drops every node reference, collects garbage and looks every registered id up again. prune / expand / import on the EML fixture with planted junk are trace-validated (live nodes registered, discarded nodes gone, unrelated ids untouched); 20k-200k fresh ids checked for collisions.",
+   text="RegistryStep (the registry changes only by create/copy/import adding exactly the new ids and delete/replace-with-delete removing exactly the named subtree) is an action property checked by TLC over every history of create, import (xml/json), copy, attach, detach, replace(+-delete), delete(+-children) with <= 4 (thorough 5) ids; every transition is replayed after the genuine history of its source state, comparing registry membership by object identity, returned ids and id uniqueness; after every transition an id-only observer drops every node reference, collects garbage and looks every registered id up again. prune / expand / import on the EML fixture with planted junk are trace-validated (live nodes registered, discarded nodes gone, unrelated ids untouched); 20k-200k fresh ids checked for collisions. Imports cover XML, JSON, JSON with null ids and the legacy JSON codec; replace_child(x, x) is part of the model.",
    note="Trusted: TLC, pi. Preconditions of the statement are enabling conditions of the spec (no id reuse, delete only registered ids).",
    technique="TLA+ action property checked by TLC (MC_Reg); transitions replayed after genuine histories; TraceForest.tla judges prune/expand/import events",
    design="4/C14"),
  "C15": dict(
-   text="TLC enumerates planting plans (3 skeletons x <=1/2 plantings (site, kind in unknown child / misplaced known child / invalid content / invalid attribute / starved required child) x strict); each is realised, pruned and judged relationally by TraceEml.tla PruneClauses on the logged pre/post projection, returned list, registry and observed validate.node outcomes: never raises; no offending node remains outside metadata content; strict: every remaining non-root node validates; kept nodes untouched and in order; whole subtrees removed; every cut reported once with a string; registry = before minus removed; only offending (or, strict, observed-invalid) nodes removed; second prune idle. Seeded 1-5 plantings at arbitrary depth on the EML fixture and on generated valid/invalid trees go through the same judge.",
+   text="TLC enumerates planting plans (3 skeletons x <=1/2 plantings (site, kind in unknown child / misplaced known child / invalid content / invalid attribute / starved required child) x strict); each is realised, pruned and judged relationally by TraceEml.tla PruneClauses on the logged pre/post projection, returned list, registry and observed validate.node outcomes: never raises; no offending node remains outside metadata content; strict: every remaining non-root node validates; kept nodes untouched and in order; whole subtrees removed; every cut reported once with a string; registry = before minus removed; only offending (or, strict, observed-invalid) nodes removed; second prune idle. Seeded 1-5 plantings at arbitrary depth on the EML fixture and on generated valid/invalid trees go through the same judge. Planting kinds include a childless child whose name the parent's rule lists although it is not a known element (skeletons eml, relatedProject).",
    note="Known / AllowedIn come from the rule table generated from the working tree. In strict mode a node cut from a parent that is itself cut later is legitimately listed (TLC taught us: first version of the clause was too strict).",
    technique="plan enumeration by TLC (MC_Plans) + relational TLA+ judge (TraceEml.tla) evaluated by TLC on recorded prune calls",
    design="4/C15"),
  "C16": dict(
-   text="TLC enumerates plans: sequences of <=3 (thorough 4) party elements, each a definition or a reference to a same-rule definition placed before or after it, with/without trailing role, x one dangling reference / duplicated id at every position or none. Each is realised on a dataset skeleton, expanded and judged by TraceEml.tla ExpandClauses: every references node replaced in place by structurally equal fresh copies (CrossEq), sources and all other nodes unchanged, none left, registry exact, validity preserved (observed before/after), copies independent (every copy edited afterwards in every container, old nodes compared), and on a fault ValueError with the full projection unchanged. The EML fixture with seeded extra references and faults goes through the same judge.",
+   text="TLC enumerates plans: sequences of <=3 (thorough 4) party elements, each a definition or a reference to a same-rule definition placed before or after it, with/without trailing role, x one dangling reference / duplicated id at every position or none. Each is realised on a dataset skeleton, expanded and judged by TraceEml.tla ExpandClauses: every references node replaced in place by structurally equal fresh copies (CrossEq), sources and all other nodes unchanged, none left, registry exact, validity preserved (observed before/after), copies independent (every copy edited afterwards in every container, old nodes compared), and on a fault ValueError with the full projection unchanged. The EML fixture with seeded extra references and faults goes through the same judge. Every plan is also run on a tree carrying a default namespace (key None) next to a prefixed one, as after from_xml.",
    note="The precondition of the statement (same rule, referenced element reference-free) is enforced by the plan generator; the spec itself decides when expansion must fail.",
    technique="plan enumeration by TLC (MC_Plans) + relational TLA+ judge (TraceEml.tla) evaluated by TLC on recorded expand calls",
    design="4/C16"),
  "C17": dict(
-   text="MC_Insert: for every rule x every existing child sequence over the rule's names up to a budget x every candidate, TLC computes the set Acceptable of indexes the statement allows (in bounds, keeps declared order, restores validity when some position does) and checks the bounded theorem RankIndex in Acceptable for the transcribed documented algorithm on the real table. The code's child_insert_index must answer inside TLC's set (ChildNotAllowedError exactly for foreign names); is_allowed_child is compared with 'occurs in some valid sequence'; long accepted sequences with one child removed are judged by TLC (TraceInsert.tla).",
+   text="MC_Insert: for every rule x every existing child sequence over the rule's names up to a budget x every candidate, TLC computes the set Acceptable of indexes the statement allows (in bounds, keeps declared order, restores validity when some position does) and checks the bounded theorem RankIndex in Acceptable for the transcribed documented algorithm on the real table. The code's child_insert_index must answer inside TLC's set (ChildNotAllowedError exactly for foreign names); is_allowed_child is compared with 'occurs in some valid sequence'; long accepted sequences with one child removed are judged by TLC (TraceInsert.tla). Every case with two or more children is also run with all siblings constructed with one explicit id.",
    note="Precondition: each rule names a child at most once (others skipped and listed). Membership via the derivative automaton, cross-checked against the declarative definition in C01's MC_Words.",
    technique="TLA+ Acceptable/RankIndex model-checked by TLC on the real rule table; TLC's acceptable sets replayed against the code; trace validation for long sequences",
    design="4/C17"),
@@ -97,12 +97,12 @@ CHECKS = {
    technique="TLA+ operator TreeEq evaluated by TLC on the MC_Copy state graph; compared with the code on every ordered node pair",
    design="4/C18"),
  "C19": dict(
-   text="Evaluate.tla states the documented recommendations as, per node, the set of acceptable warning sets over a flat tree projection (names, child lists, word counts, truthiness, ORCID flag), with the UNSPEC corners as several acceptable sets. MC_EvalPlans (TLC) enumerates 15,692 dataset profiles (x a complete / minimal / no dataSource nested in the methods) - every threshold at -1/0/+1, every optional part present/absent, abstract text in own content / para / markdown / split / below sections / paras with only inline children, keywords over 1-2 sets, party ids none / other directory / ORCID / both. Each profile is realised as a tree that passes validate.tree (discarded and counted otherwise), evaluated into a pre-filled list and judged node by node by TraceEval.tla: no exception, earlier entries intact, (EvaluationWarning, str, node) triples, exactly an acceptable set at every node. Random rule-guided valid trees go through the same judge; mutated known-name trees, parentless nodes and text-less paras are judged for totality (evaluate.tree and evaluate.node).",
+   text="Evaluate.tla states the documented recommendations as, per node, the set of acceptable warning sets over a flat tree projection (names, child lists, word counts, truthiness, ORCID flag), with the UNSPEC corners as several acceptable sets. MC_EvalPlans (TLC) enumerates 15,692 dataset profiles (x a complete / minimal / no dataSource nested in the methods) - every threshold at -1/0/+1, every optional part present/absent, abstract text in own content / para / markdown / split / below sections / paras with only inline children, keywords over 1-2 sets, party ids none / other directory / ORCID / both. Each profile is realised as a tree that passes validate.tree (discarded and counted otherwise), evaluated into a pre-filled list and judged node by node by TraceEval.tla: no exception, earlier entries intact, (EvaluationWarning, str, node) triples, exactly an acceptable set at every node. Random rule-guided valid trees go through the same judge; mutated known-name trees, parentless nodes and text-less paras are judged for totality (evaluate.tree and evaluate.node). Every fourth profile is built from words that mean something to str.format, %-formatting, templates and XML.",
    note="Word counts and truthiness are observed by the harness projection (Python split); title words separated by spaces. Several physical/size/dataFormat children not generated.",
    technique="profile enumeration by TLC (MC_EvalPlans) + TLA+ recommendation semantics (Evaluate.tla) judging recorded evaluations with TLC (TraceEval.tla)",
    design="4/C19"),
  "C20": dict(
-   text="Text.tla defines Words, NormOK (no NBSP, no leading/trailing space, no run of spaces, same words in order), XPath NormalizeSpace and the protected-element rule; MC_Text checks on all 55,987 strings <= 6 over {SP,TAB,LF,NBSP,a,b} that the spec's own normaliser satisfies NormOK and is idempotent. Every string <= 5 (thorough 6) plus seeded longer ones is run through normalize() and the (input, output, output-of-output) triple judged by TraceText.tla; seeded XML documents (mixed content, protected elements at several depths, plain and xsi-prefixed attributes, SP/TAB/LF/NBSP in text, tails and attribute values) are normalised twice, input and output parsed by an independent parser and judged: same elements, attribute names and order, values/text space-normalised except below protected elements (NBSP replaced only), idempotent, well-formed.",
+   text="Text.tla defines Words, NormOK (no NBSP, no leading/trailing space, no run of spaces, same words in order), XPath NormalizeSpace and the protected-element rule; MC_Text checks on all 55,987 strings <= 6 over {SP,TAB,LF,NBSP,a,b} that the spec's own normaliser satisfies NormOK and is idempotent. Every string <= 5 (thorough 6) plus seeded longer ones is run through normalize() and the (input, output, output-of-output) triple judged by TraceText.tla; seeded XML documents (mixed content, protected elements at several depths, plain and xsi-prefixed attributes, SP/TAB/LF/NBSP in text, tails and attribute values) are normalised twice, input and output parsed by an independent parser and judged: same elements, attribute names and order, values/text space-normalised except below protected elements (NBSP replaced only), idempotent, well-formed. Documents carry XML declarations, internal DTD subsets with general entities used in text and attribute values, character references (also of U+00A0), CDATA sections, comments and processing instructions.",
    note="Well-formedness and 'what the text denotes' are observed with expat; Unicode whitespace beyond SP/TAB/LF/CR/NBSP is outside the quantifier.",
    technique="TLA+ whitespace semantics model-checked by TLC (MC_Text); recorded normalize() calls trace-validated by TLC (TraceText.tla)",
    design="4/C20"),
